@@ -64,3 +64,34 @@ func countStr(x string, l []string) int {
 	}
 	return n
 }
+
+// C11/C13 DeleteMeta (MsgTerminate and the model end blocker): the model, its alias entry and its scheduled
+// deletion go together - no stale schedule entry stays behind that would delete a model re-created under
+// the same data id at the old height - and the other models scheduled at that height stay scheduled.
+func Ob_C11C13_DeleteMeta() {
+	w := NewWorld()
+	sym.SetBound("ExpiredData.Data", 2)
+	dataId := sym.String("dataId")
+	m0, found := w.Model.GetMetadata(w.Ctx, dataId)
+	sym.Assume(found && m0.DataId == dataId)
+	h := m0.CreatedAt + m0.Duration
+	e0, had0 := w.Model.GetExpiredData(w.Ctx, h)
+	sym.Assume(had0 && countStr(dataId, e0.Data) == 1) // schedule invariant: the model is scheduled (once) at its end
+	others := make([]string, 0)
+	for _, id := range e0.Data {
+		if id != dataId {
+			others = append(others, id)
+		}
+	}
+	err := w.Model.DeleteMeta(w.Ctx, dataId)
+	sym.Cover("C11.deletemeta-called")
+	sym.Assert("C11.deletemeta-no-error", err == nil)
+	_, still := w.Model.GetMetadata(w.Ctx, dataId)
+	_, alias := w.Model.GetModel(w.Ctx, aliasKey(m0))
+	sym.Assert("C13.deletemeta-removes-model-and-alias", !still && !alias)
+	e1, has1 := w.Model.GetExpiredData(w.Ctx, h)
+	sym.Assert("C11.deletemeta-unschedules-the-model", !has1 || !inList(dataId, e1.Data))
+	for _, id := range others {
+		sym.Assert("C11.deletemeta-keeps-other-models-scheduled", has1 && countStr(id, e1.Data) == 1)
+	}
+}
